@@ -117,6 +117,35 @@ func (ex *Exec) loadPath(root Value, path []PathElem) Value {
 	if n == 0 {
 		unsupported("symbolic index into empty aggregate")
 	}
+	if len(path) == 1 && n > 8 {
+		// lookup table of constants: one comparison per run of equal values (the index is
+		// known to be in range: signed compare is fine for 0 <= idx < n)
+		allConst := true
+		for _, e := range elems {
+			if t, ok := e.(*Term); !ok || !t.IsConst() {
+				allConst = false
+				break
+			}
+		}
+		if allConst {
+			res := elems[n-1].(*Term)
+			for i := n - 2; i >= 0; i-- {
+				if elems[i].(*Term) == elems[i+1].(*Term) {
+					continue
+				}
+				// elems[i] ends a run: idx <= i selects it (runs to the left override later)
+				bound := ex.intConst(big.NewInt(int64(i)), intK)
+				var c *Term
+				if ex.IntMode {
+					c = ICmp("<=", p.Sym, bound)
+				} else {
+					c = BVCmp("bvsle", p.Sym, bound)
+				}
+				res = Ite(c, elems[i].(*Term), res)
+			}
+			return res
+		}
+	}
 	res := ex.loadPath(elems[n-1], path[1:])
 	for i := n - 2; i >= 0; i-- {
 		res = ex.iteValue(ex.idxEq(p.Sym, i), ex.loadPath(elems[i], path[1:]), res)
